@@ -20,8 +20,11 @@ CLAIMED = {
               "item fallback are NOT decided by this technique (pure functions of the input). Sampled: evidence, not proof."),
         design_ref="DESIGN.md 3.1",
         note=("Trusted: sim/model.py (reference interpreter written from docs/reference.rst and the property statement) "
-              "for the generated subset; expressions are built from probe calls only, so the python sub-grammar of the "
-              "quantifier (comprehensions, lambdas, f-strings) is not exercised."),
+              "for the generated subset; expressions are probe calls, optionally wrapped in a fixed set of python forms "
+              "(lambdas with star / keyword-only / positional-only parameters, list / set / dict comprehensions and a "
+              "generator expression over same-named render arguments, dotted access and dotted calls on dict and "
+              "item-only objects); f-strings and arbitrary python are not generated. Two known findings are recognised "
+              "by exact model variants (F28 in known_findings.json; C13's F12 is not reported here)."),
         technique="deterministic fault injection at the expression-evaluation seam with a reference interpreter as history oracle",
     ),
     "C12": dict(
@@ -39,7 +42,9 @@ CLAIMED = {
         note=("Trusted: the generator's site table (offsets recorded while serialising) and sim/model.py for the stack of "
               "enclosing use-macro sites. 35% of cases are multi-file sets (macro libraries reached through load:). "
               "One known finding is recorded rather than repaired (entity-drift, known_findings.json): positions after "
-              "character entities in TAL attribute values. <?python ?> blocks and interrupts between bytecodes are not generated."),
+              "character entities in TAL attribute values. 25% of the laid-out templates carry form feed / NEL / U+2028-style "
+              "separators, 20% CRLF line endings. Exceptions are held and read again after later renders, and once more with "
+              "open() failing while the message is built. Errors crossing a nested render() call made by user code are not generated."),
         technique="deterministic fault enumeration at the expression-evaluation seam (every reached site x exception zoo) with a generator-known site table as oracle",
     ),
     "C13": dict(
@@ -70,10 +75,17 @@ CLAIMED = {
               "unchanged, no deadlock, no residue afterwards. (b) call "
               "sequences on reused vs fresh instances, and the same sequence in fresh interpreters under other "
               "PYTHONHASHSEED values (with allocator noise) and in reverse order must give identical output. "
+              "(c) reload race: an auto-reloading template that has been rendered, its file replaced (and in half of the "
+              "runs replaced again during the concurrent phase), judged with a real-time-order oracle over scheduler "
+              "steps. (d) in a quarter of the schedules one thread is sent an asynchronous exception (KeyboardInterrupt, "
+              "SystemExit, MemoryError) at its n-th line / n-th distinct line / n-th shared-state access line inside one "
+              "operation: that operation may fail with it, every other operation, the observer and the sequential "
+              "re-execution must be unaffected and nobody may deadlock. "
               "Schedules are sampled: evidence, not proof."),
         design_ref="DESIGN.md 3.4",
-        note=("Pre-emption granularity is a source line. Files do not change during a run (that axis is C16). "
-              "Trusted: the run-alone execution of the same operation as the expected value."),
+        note=("Pre-emption granularity is a source line. One known finding (F14, unsynchronised reload with a file "
+              "replaced during use) is filed under two exact signatures. "
+              "Trusted: the run-alone execution of the same operation (after the same prior history) as the expected value."),
         technique="deterministic simulation: baton-scheduled real threads with sys.monitoring line pre-emption and PCT; cross-process replay under different hash seeds",
     ),
     "C15": dict(
@@ -100,6 +112,11 @@ CLAIMED = {
               "stat/read seam. After every step the outcome must be one an independent instance of the expected "
               "version produces; compile counts must match the mtime rule; loader results are checked for identity "
               "and first-match resolution; after faults stop one tick and one use must give the latest version. "
+              "Further fault kinds: another process replaces the file just before the n-th file-system call of a use "
+              "(exact set of (recorded mtime, version) states afterwards); an asynchronous exception (KeyboardInterrupt, "
+              "SystemExit, MemoryError) at the n-th line / distinct line / shared-state access line of a use, usually one "
+              "that has something to reload; the garbage collector run as a seeded operation after the caller dropped "
+              "every template it got from the loader (same name must still give the same instance). "
               "Sampling of histories: evidence, not proof."),
         design_ref="DESIGN.md 3.6",
         note=("Strictly sequential (one server thread); reload decisions are modelled by the mtime rule, "
